@@ -35,8 +35,7 @@ theorem C33_visible_some_iff (now : Nat) (e : Ent) :
       · rw [h1] at h3; cases h3
       · omega
   · have h2 : deletedOrExpired e.emeta e.exp now = false := by simpa using h
-    rw [h2]
-    simp only [Bool.false_eq_true, if_false, true_iff]
+    simp only [h2, Bool.false_eq_true, if_false, true_iff]
     have h' := mt (C33_deletedOrExpired_iff e.emeta e.exp now).mpr h
     simp only [not_or, not_and, Bool.not_eq_true] at h'
     refine ⟨h'.1, ?_⟩
@@ -101,16 +100,16 @@ theorem C33_get_paths (d : Db) (id : Nat) (t : TxnM) (k : Bytes)
       simp only [Bool.false_eq_true, if_false]
       cases d.lsm.get k t.readTs with
       | none => rfl
-      | some e => simp only [visible]; split <;> rfl
+      | some e => by_cases hx : deletedOrExpired e.emeta e.exp d.now = true <;> simp [visible, hx]
     | true =>
       simp only [if_true]
       cases hp : t.pending.find? (·.key == k) with
-      | some e => simp only [visible]; split <;> rfl
+      | some e => by_cases hx : deletedOrExpired e.emeta e.exp d.now = true <;> simp [visible, hx]
       | none =>
         simp only [setTxn_lsm, setTxn_now]
         cases d.lsm.get k t.readTs with
         | none => rfl
-        | some e => simp only [visible]; split <;> rfl
+        | some e => by_cases hx : deletedOrExpired e.emeta e.exp d.now = true <;> simp [visible, hx]
   · intro o seek items hall hit x hx
     unfold Db.iterate at hit
     simp only [ht] at hit
